@@ -205,6 +205,22 @@ def value_sweep(tier):
         yield {"calls": [["from", T], ["select", [["valnp", 424242], fa]], ["where", ["in", fa, [raw(v), ["valnp", 424242]]]]]}
         yield {"calls": [["from", T], ["select", [["coalesce", [fa, raw(v)]], ["case", [[["cmp", "=", fa, raw(v)], raw(v)]], raw(v)]]]]}
         yield {"calls": [["from", T], ["select", [fa]], ["where", ["cmp", "=", fa, raw(v)]], ["union", {"calls": [["from", U], ["select", [ux]], ["where", ["cmp", "=", uy, raw(v)]]]}]]}
+    # row-limiting values given as terms (a wrapper that must stay inline, an expression over constants)
+    for e in (["valnp", 3], ["arith", "*", ["lit", 2], ["raw", 5]], ["lit", 4]):
+        yield {"calls": [["from", T], ["select", [fa]], ["where", ["cmp", "=", fa, raw(7)]], ["limit", e]]}
+        yield {"calls": [["from", T], ["select", [fa]], ["where", ["cmp", "=", fa, raw(7)]], ["limit", ["lit", 9]], ["offset", e]]}
+    # inline text that looks like a placeholder: a constant that is not parameterised, an identifier, a LIKE pattern
+    for txt in ("why?", "100%s", "$1", ":p", "?"):
+        yield {"calls": [["from", T], ["select", [fa, ["valnp", txt]]], ["where", ["cmp", "=", fb, raw(2)]]]}
+        yield {"calls": [["from", T], ["select", [["as", fa, txt]]], ["where", ["logic", "AND", ["cmp", "=", ["f", "t", txt], raw(2)], ["like", fb, txt]]]]}
+    # a subquery built through another dialect's class: one placeholder style, one numbering, one value list
+    for qc in ("mysql", "postgresql", "generic", "sqlite"):
+        inner = {"calls": [["from", U], ["select", [ux]], ["where", ["cmp", "=", uy, raw("v'")]], ["limit", 3]], "q": qc}
+        yield {"calls": [["from", T], ["select", [fa]], ["where", ["logic", "AND", ["cmp", "=", fa, raw(1)],
+                                                                   ["logic", "AND", ["insub", fb, inner], ["cmp", ">", fid, raw(4)]]]]]}
+        yield {"calls": [["from", ["q", "sq0", inner, "sq0"]], ["select", [["f", "sq0", "x"], ["lit", 5]]], ["where", ["cmp", "<", ["f", "sq0", "x"], raw(6)]]]}
+        yield {"calls": [["from", T], ["join", "inner", ["q", "sq", inner, "sq"], ["on", ["cmp", "=", fid, ["f", "sq", "x"]]]], ["select", [fa]],
+                         ["where", ["cmp", "=", fa, raw(8)]], ["union", {"calls": [["from", U], ["select", [ux]], ["where", ["cmp", "=", uy, raw(9)]]], "q": qc}]]}
     # boundary values of the row-limiting calls (zero, equal to each other, equal to a constant elsewhere in the statement)
     for lim, off in itertools.product([None, 0, 1, 5], [None, 0, 5]):
         if lim is None and off is None:
